@@ -318,7 +318,7 @@ def alter_pose(p, rng, mag):
 # ---------------------------------------------------------------------------------------------------- cases
 
 def gen_case(rng):
-    opts = kgen.Opts(p_part=0.85, id_pool=3, fancy_ids=rng.random() < 0.3, max_rows=4, image_pool=4, partial_poses=True, histories=True,
+    opts = kgen.Opts(dtype_instances=0.3, p_part=0.85, id_pool=3, fancy_ids=rng.random() < 0.3, max_rows=4, image_pool=4, partial_poses=True, histories=True,
                      special_floats=False)
     d = kgen.gen_dataset(rng, opts)
     mode = rng.choice(['copy', 'reload', 'mut', 'mut', 'mut', 'mut', 'mut', 'mut'])
@@ -334,7 +334,7 @@ def gen_case(rng):
 def cases(rng, tier):
     n = 300 if tier == 'quick' else 6000
     out = [gen_case(rng) for _ in range(n)]
-    opts = kgen.Opts(p_part=0.9, id_pool=3, fancy_ids=False, max_rows=4, image_pool=4, partial_poses=True, special_floats=False,
+    opts = kgen.Opts(dtype_instances=0.3, p_part=0.9, id_pool=3, fancy_ids=False, max_rows=4, image_pool=4, partial_poses=True, special_floats=False,
                      histories=True)
     for _ in range(15 if tier == 'quick' else 300):
         out.extend(positional_mutants(kgen.gen_dataset(rng, opts), rng))
